@@ -78,6 +78,7 @@ def run(tier, seed):
     col = stepcheck.explore(its, MONS, H, D, who_fn=lambda sp: ["P"] + F.worker_names(sp)[:1], seed=seed)
     ri = resume_items(tier)
     col.merge(stepcheck.explore(ri, MONS, 0, 0, seed=seed))
+    col.merge(stepcheck.explore(stepcheck.edited_items(names=("add-task", "add-link", "task-work")), MONS, 0, 0, seed=seed))  # the model edited between two runs (a first task for an empty component)
     meta = {
         "level": "model_checking",
         "rule": "FS/SS workflows on 3 tasks x every assignment of the tasks to <=2 (thorough 3) components or to none (incl. empty components) x progress/auto variants, "
